@@ -69,6 +69,66 @@ def _is_step(f, s, items, hdr=None):
     return False
 
 
+def _periodic_range(f, region):
+    """bounds of the Range built in the periodic region of apply (loop or iterator pipeline)."""
+    for bi, b in enumerate(f.blocks):
+        if b.get("cleanup") or region(bi) != "periodic":
+            continue
+        for s in b["s"]:
+            if s["k"] == "assign" and s["rv"][0] == "agg" and s["rv"][1].get("adt") == "core::ops::range::Range":
+                return s, (sym(f, s["rv"][2][0]), sym(f, s["rv"][2][1]))
+    return None, None
+
+
+def _periodic_pipeline(p, f, region):
+    """`(0..n).map(|i| first_step + stride * i).for_each(|step| f(step, value))` in the periodic region."""
+    fe = [(bi, t) for bi, t in f.calls() if _name(t) == "for_each" and not f.is_cleanup(bi) and region(bi) == "periodic"]
+    if len(fe) != 1:
+        return None
+    bi, t = fe[0]
+    recv = arg_slice(f, t, 0)
+    names = _names(f, recv)
+    rs, bound = _periodic_range(f, region)
+    ok = rs is not None and rs["p"][0] in recv["locals"] and bound == (("k", 0), ("bin", "Div", ("arg", 2), STRIDE)) and \
+        "map" in names and not (names & TRUNCATING) and "rev" not in names
+    # the map closure: first_step + stride * i over the captured assertion
+    step_ok = False
+    for ck in recv["closures"]:
+        cm = p.funcs.get(ck)
+        if cm is None:
+            continue
+        ret = None
+        for b in cm.blocks:
+            for s in b["s"]:
+                if s["k"] == "assign" and s["p"] == [0]:
+                    ret = sym(cm, s["rv"][1]) if s["rv"][0] == "use" else (("bin", str(s["rv"][1]).replace("WithOverflow", ""), sym(cm, s["rv"][2]), sym(cm, s["rv"][3])) if s["rv"][0] in ("bin", "cbin") else None)
+        if ret and ret[0] == "bin" and ret[1] == "Add":
+            for a, b2 in ((ret[2], ret[3]), (ret[3], ret[2])):
+                if a[0] == "field" and a[1][0] == "env" and a[2] == 1 and b2[0] == "bin" and b2[1] == "Mul":
+                    for x, y in ((b2[2], b2[3]), (b2[3], b2[2])):
+                        if x[0] == "field" and x[1][0] == "env" and x[2] == 2 and y == ("arg", 2):
+                            step_ok = True
+    # the for_each closure: callback(step parameter, captured values[0])
+    cb_ok = False
+    cl = arg_slice(f, t, 1)
+    first_value = any(_name(f.term(b)) == "index" and (op_const(f.term(b)["a"][1]) or {}).get("v") == "0" and
+                      "values" in slice_field_bases(arg_slice(f, f.term(b), 0)) for b in cl["calls"])
+    for ck in cl["closures"]:
+        ce = p.funcs.get(ck)
+        if ce is None:
+            continue
+        for b3, t3 in ce.calls():
+            if _name(t3) in ("call_mut", "call", "call_once") and not ce.is_cleanup(b3) and len(t3["a"]) == 2:
+                tup = None
+                for x in ce.copy_chain(op_local(t3["a"][1])) | {op_local(t3["a"][1])}:
+                    for d in ce.defs(x):
+                        if d["kind"] == "assign" and d["rv"][0] == "agg" and d["rv"][1].get("k") == "tuple" and len(d["rv"][2]) == 2:
+                            tup = d
+                if tup and sym(ce, tup["rv"][2][0]) == ("arg", 2) and sym(ce, tup["rv"][2][1])[0] == "env":
+                    cb_ok = True
+    return (ok and step_ok and cb_ok and first_value), (bound[1] if bound else None)
+
+
 def r1_apply(ctx):
     p = ctx.p
     _fields_ok(p)
@@ -84,7 +144,16 @@ def r1_apply(ctx):
             ctx.ob("R1", "callback-outside-the-three-regions", False, "the callback is invoked outside the single / periodic / sequence regions", f, t["sp"]["at"])
             continue
         seen.setdefault(r, []).append((bi, t))
+    if not seen.get("periodic"):
+        pipe = _periodic_pipeline(p, f, region)
+        if pipe is not None:
+            ok, bound = pipe
+            ctx.ob("R1", "periodic:step-and-value", ok, "periodic: (0..trace_length / stride).map(|i| first_step + stride * i).for_each(|step| f(step, values[0]))" if ok else
+                   "periodic assertion: the iterator pipeline does not hand the callback (first_step + stride * i, values[0]) for i in 0..trace_length / stride", f)
+            seen["periodic"] = None
     for r in ("single", "periodic", "sequence"):
+        if r == "periodic" and r in seen and seen[r] is None:
+            continue
         if len(seen.get(r, [])) != 1:
             ctx.ob("R1", "%s:callback-once" % r, False, "the %s region invokes the callback %d times" % (r, len(seen.get(r, []))), f)
             continue
@@ -163,6 +232,10 @@ def r2_num_steps(ctx):
             for d in g.defs(l):
                 if d["kind"] == "assign" and d["rv"][0] == "agg" and d["rv"][1].get("adt") == "core::ops::range::Range" and sym(g, d["rv"][2][0]) == ("k", 0):
                     want = sym(g, d["rv"][2][1])
+    if want is None:
+        rs, bound = _periodic_range(g, gr)
+        if bound and bound[0] == ("k", 0):
+            want = bound[1]
     ok = want is not None and got.get("periodic") == want
     ctx.ob("R2", "periodic:count-is-apply's-loop-bound", ok, "periodic: get_num_steps = trace_length / stride = the bound of apply's loop" if ok else
            "periodic assertion: get_num_steps returns %s but apply loops over 0..%s" % (got.get("periodic"), want), f)
